@@ -304,6 +304,15 @@ func TestHaltingHistories(t *testing.T) {
 		if rapid.IntRange(0, 3).Draw(rt, "other?") == 0 {
 			c.OtherEdit = drawEdits(rt, "other", other, 2)
 		}
+		if c.Trigger == "empty-root" && rapid.Bool().Draw(rt, "shared-deletions") {
+			// The other root deletes some of the same top-level entries in
+			// the same cycle (deletions both sides agree on).
+			for _, name := range names {
+				if rapid.IntRange(0, 2).Draw(rt, "shared-deletion."+name) != 0 {
+					c.OtherEdit = append(c.OtherEdit, &Edit{Side: other, Op: "delete", Path: name})
+				}
+			}
+		}
 		c.LateEdit = drawEdits(rt, "late", other, 2)
 		v, nt, class := r.run(c)
 		rec.Eval()
